@@ -34,6 +34,9 @@ sigs = collections.defaultdict(list)
 for l, o in zip(cases, a):
     s = P.oracle(l, o)
     if s: sigs[(s, P.classify(l, o, s))].append((l, o))
+if hasattr(P, "group_oracle"):
+    for i, s in P.group_oracle(cases, a):
+        sigs[(s, P.classify(cases[i], a[i], s))].append((cases[i], a[i]))
 for (s, c), v in sorted(sigs.items(), key=lambda x: -len(x[1])):
     print("==", s, "class:", c, "count:", len(v), collections.Counter(l.split(" ")[0] for l, o in v).most_common())
     for l, o in v[:3]:
